@@ -131,7 +131,7 @@ impl crate::Tree {
 pub fn decompress_svgz(data: &[u8]) -> Result<Vec<u8>, Error> {
     use std::io::Read;
 
-    let mut decoder = flate2::read::GzDecoder::new(data);
+    let mut decoder = flate2::read::MultiGzDecoder::new(data);
     let mut decoded = Vec::with_capacity(data.len() * 2);
     decoder
         .read_to_end(&mut decoded)
